@@ -428,8 +428,9 @@ where
 }
 
 fn make_abbreviated_namespace(namespace: &str, existing_namespaces: &[Rc<Namespace>]) -> String {
+    // the abbreviation becomes an XML prefix and part of a module name: letters and digits only
     fn take_three_chars_max(namespace: &str) -> String {
-        namespace.chars().filter(|c| c != &'.').take(3).collect()
+        namespace.chars().filter(|c| c.is_alphanumeric()).take(3).collect()
     }
 
     let mut append: Option<u32> = None;
@@ -445,6 +446,12 @@ fn make_abbreviated_namespace(namespace: &str, existing_namespaces: &[Rc<Namespa
     };
 
     let abbreviation = abbreviation.to_lowercase();
+    // an XML prefix cannot be empty or start with a digit
+    let abbreviation = if abbreviation.chars().next().is_none_or(char::is_numeric) {
+        format!("ns{abbreviation}")
+    } else {
+        abbreviation
+    };
 
     loop {
         let use_abbreviation = if let Some(append) = append {
